@@ -15,7 +15,22 @@ PY = os.environ.get('VERIF_PYTHON', '/venv/bin/python')
 
 
 def _out_dir(pid, tier):
-  d = os.path.join(_env.VERIF_DIR, 'out', pid, tier)
+  """Scratch directory of THIS run (shard outputs, logs).  Unique per process so
+  that two runs of the same property at the same time -- e.g. one against /repo
+  and one against a scratch copy -- never read each other's shard files; stale
+  directories of earlier runs are removed."""
+  base = os.path.join(_env.VERIF_DIR, 'out', pid)
+  os.makedirs(base, exist_ok=True)
+  now = time.time()
+  for name in os.listdir(base):
+    path = os.path.join(base, name)
+    if name.startswith(tier + '-') and os.path.isdir(path):
+      try:
+        if now - os.path.getmtime(path) > 6 * 3600:
+          shutil.rmtree(path, ignore_errors=True)
+      except OSError:
+        pass
+  d = os.path.join(base, f'{tier}-{os.getpid()}')
   shutil.rmtree(d, ignore_errors=True)
   os.makedirs(d, exist_ok=True)
   return d
@@ -227,7 +242,7 @@ def merge(pid, tier, seed, meta, shards, harness_errors, wall, fuzz_notes=(), pa
   # evidence; partial (--only / --scale) and scratch-copy (VERIF_REPO) runs
   # write theirs next to the shard output.
   if partial or os.environ.get('VERIF_REPO'):
-    edir = os.path.join(_env.VERIF_DIR, 'out', pid, tier)
+    edir = os.path.join(_env.VERIF_DIR, 'out', pid, f'{tier}-{os.getpid()}')
     evidence['partial_run'] = True
   else:
     edir = os.path.join(_env.VERIF_DIR, 'evidence')
